@@ -12,3 +12,4 @@ LEVEL_NOTE = "Trusts the pyvc encoding, z3/cvc5, argparse."
 TECHNIQUE = "contract-based deductive verification (VCs from the ast of the real functions, z3/cvc5)"
 UNITS = [VIO.unit_reader_rows(), VIO.unit_module_rows_validate(), APP.unit_set_options(), APP.unit_c07_sweep()]
 UNITS += [VIO.unit_reader_init(), VIO.unit_validate_rows()]
+UNITS += [VIO.unit_raw_rows().also("C07"), APP.unit_app_init()]
